@@ -207,6 +207,9 @@ func (r *Rec) keepSample(raw []byte) {
 	if len(raw) == 0 {
 		return
 	}
+	if !json.Valid(raw) {
+		raw, _ = json.Marshal(string(raw))
+	}
 	s := sample{size: len(raw), raw: clip(raw)}
 	if len(r.first) < 2 {
 		r.first = append(r.first, s)
@@ -416,6 +419,9 @@ func (r *Rec) Flush() {
 	for _, v := range r.violations {
 		res.Violations = append(res.Violations, v)
 	}
-	b, _ := json.MarshalIndent(res, "", " ")
+	b, err := json.MarshalIndent(res, "", " ")
+	if err != nil {
+		b, _ = json.Marshal(map[string]interface{}{"property": r.Property, "unit": r.Unit, "shard": e.Shard, "marshal_error": err.Error()})
+	}
 	os.WriteFile(base+".json", b, 0o644)
 }
